@@ -26,8 +26,8 @@ Markup == <<"{{", "}}", "{%", "%}", "{#", "#}", "#", "-", "~", "raw", "endraw", 
             "liquid", "if x", "endif", "ab", " ", "\n", "{", "}", "%", "'", "\"", "\\", "x", "1">>
 Expr == <<"x", "and", "or", "not", "in", "contains", "if", "else", "with", "for", "as", "nil", "true",
           "1", ".", "..", "[", "]", "(", ")", "'", "\"", "\\", "${", "}", "|", "||", ":", ",", "=", "=>",
-          "==", "<", "-", "e", " ", "\n", "@">>
+          "==", "<", "-", "e", "e999", " ", "\n", "@">>
 MarkupSmall == <<"{{", "}}", "{%", "%}", "{#", "#}", "-", "raw", "endraw", "if x", "endif", "ab", " ", "\n", "'", "x">>
 ExprSmall == <<"x", "and", "not", "contains", "if", "else", "1", ".", "..", "[", "]", "(", ")", "'", "\"",
-               "${", "}", "|", ":", ",", "==", "-", " ">>
+               "${", "}", "|", ":", ",", "==", "-", "e999", " ">>
 =============================================================================
